@@ -1,8 +1,20 @@
 import P2.Props.C13Gen
-open P2.Props.C13Gen
-#print axioms table_shapes
-#print axioms round_constants_canonical
-#print axioms fast_partial_round_constants_canonical
-#print axioms fast_tables_canonical
-#print axioms mds_entries_small
-#print axioms freq_blocks_match_circulant_on_basis
+import P2.Props.C13
+#print axioms P2.Props.C13Gen.table_shapes
+#print axioms P2.Props.C13Gen.round_constants_canonical
+#print axioms P2.Props.C13Gen.fast_partial_round_constants_canonical
+#print axioms P2.Props.C13Gen.fast_tables_canonical
+#print axioms P2.Props.C13Gen.mds_entries_small
+#print axioms P2.Props.C13Gen.freq_blocks_match_circulant_on_basis
+#print axioms P2.Props.C13.mdsMultiplyFreq_eq_circulant
+#print axioms P2.Props.C13.mdsMultiplyFreq_eq_circulant_array
+#print axioms P2.Props.C13.mdsMultiplyFreq_explicit
+#print axioms P2.Props.C13.mdsMultiplyFreq_range
+#print axioms P2.Props.C13.mdsMultiplyFreq_range_array
+#print axioms P2.Props.C13.mdsLayer_spec
+#print axioms P2.Props.C13.mdsLayer_spec_diag
+#print axioms P2.Props.C13.sbox_spec
+#print axioms P2.Props.C13.constantLayer_spec
+#print axioms P2.Props.C13.run_eq_rRun
+#print axioms P2.Props.C13.observeMany_append
+#print axioms P2.Props.C13.sbox_bijective
